@@ -34,6 +34,24 @@ def make_cases(rng, tier, n):
                 stats["same_size_old_mtime"] = stats.get("same_size_old_mtime", 0) + 1
                 cases.append(c)
                 continue
+        if not pipe and i % 12 == 3:
+            # tracked pairs `x` / `x.tmp` (and other suffixes a temp-file scheme would pick), all absent when checked out as copies;
+            # the checkout is repeated: a no-op
+            d0_ = [a for a in s1eval.artifacts(c) if a[1] == "d"]
+            if not d0_:
+                c["init"].append(("dir", b"pairs"))
+                c["stages"].append((b"pairs.yaml", dict(cmd=b"", wd=b".", out=[(b"pairs", "d")])))
+                d0_ = [(b"pairs", "d", b"pairs.yaml")]
+            for j in range(12):
+                sfx = [b".tmp", b".tmp", b".part", b".dud-partial", b"~", b".new"][j % 6]
+                c["init"] += [("file", d0_[0][0] + b"/x%02d" % j, "g:%d:%d" % (5000 + j, 30 + j)), ("file", d0_[0][0] + b"/x%02d" % j + sfx, "g:%d:%d" % (6000 + j, 7 + j))]
+            c["ops"] = [("commit", "l", []), ("clone", [b"workdir", b"workdir/inner"] if c.get("cwd") else []), ("checkout", "c", False, []),
+                        ("checkout", "c", False, []), ("status", [])]
+            c["seq"] = ["l", "clone", "checkout-c", "checkout-c"]
+            c["first_index"] = 0
+            stats["tmp_sibling_pairs"] = stats.get("tmp_sibling_pairs", 0) + 1
+            cases.append(c)
+            continue
         if not pipe and i % 12 == 9:
             # after a link commit, edits that leave nothing to hash: a committed link deleted (in a sub-directory when there is one),
             # two committed links of one directory swapped, a file replaced by an empty file; the tree is committed again and the
